@@ -826,6 +826,25 @@ fn child_ignore(args: &Args) {
     }
 
     for fi in 0..nfilt {
+        if fi == nfilt / 2 {
+            // a second initialisation is refused (the logger is set once per process): it must
+            // leave the bridge as the successful one configured it - including which records the
+            // `log` macros let through to it
+            let other = *LOG_FILTERS.iter().find(|f| logf_rank(**f) != maxr).expect("HARNESS: another filter");
+            let r = LogTracer::builder().with_max_level(other).init();
+            out.evals += 1;
+            out.count("refused_second_inits", 1);
+            if r.is_ok() {
+                out.inconclusive("a second LogTracer init succeeded: the log crate accepted a second logger".to_string());
+            } else if logf_rank(log::max_level()) != maxr {
+                out.violation(
+                    "log->tracing [A2]: a refused second LogTracer init changed log::max_level(): records the configured bridge accepts no longer reach it",
+                    json!({"configuration": config, "refused_init_with_max_level": logf_rank(other), "log_max_level_rank_now": logf_rank(log::max_level())}),
+                );
+                out.emit();
+                return;
+            }
+        }
         let mut filt = gen_filt(&mut rng);
         if fi % 2 == 0 {
             // make sure there are filters under which the ignore list is what decides
